@@ -11,21 +11,26 @@ MANIFEST = dict(
 
 LEVEL = "model_checking"
 RULE = ("behaviours = every sequence of body operations (constructors, section-touching calls, the three "
-        "removals with every index in -1..len+1 and every live/removed/foreign handle) up to the tier's depth "
+        "removals with every index in -1..len+1 and every live/removed/foreign handle, the accessor pair GetParagraphs / "
+        "GetTables as an operation of its own, Body.AddElement, empty and non-empty texts) up to the tier's depth "
         "enumerated by TLC in BFS order, plus seeded random longer ones; each is executed on the real library, "
         "the in-memory body and the saved main part are projected after every step and judged by Body_Trace.tla")
 
 
 CORE = {"AddParagraph", "AddHeadingParagraphWithBookmark", "AddTable", "AddMathFormula", "GenerateTOC",
         "SetPageMargins", "AddHeader", "RemoveParagraph", "RemoveParagraphAt", "RemoveElementAt"}
-ALL = CORE | {"AddFormattedParagraph", "AddHeadingParagraph", "AddHeadingWithBookmark", "AddPageBreak", "AddImage",
+# a read accessor between edits (an answer remembered from an earlier length), empty texts, caller-built elements
+READ = {"AddParagraph", "Read", "RemoveParagraphAt"}
+TEXTS = {"AddParagraph", "AddFootnote", "AddEndnote", "AddListItem", "AddTable", "AddElement", "Read", "RemoveParagraphAt"}
+ALL = CORE | {"Read", "AddElement", "AddFormattedParagraph", "AddHeadingParagraph", "AddHeadingWithBookmark", "AddPageBreak", "AddImage",
               "AddListItem", "AddFootnote", "AddEndnote", "SetPageSize", "SetPageOrientation", "GetPageSettings",
               "AddFooter", "AddHeaderWithPageNumber", "AddFooterWithPageNumber", "SetDifferentFirstPage",
               "SetDocGrid", "ClearDocGrid"}
 
 
-def gencfg(ctx, name, ops, depth):
-    return ctx.cfg(name, "SpecGen", {"MaxEls": 999, "MaxUid": 999, "Depth": depth, "OpNames": ops}, invariants=["Emit"])
+def gencfg(ctx, name, ops, depth, txt=("tok",), idx=()):
+    return ctx.cfg(name, "SpecGen", {"MaxEls": 999, "MaxUid": 999, "Depth": depth, "OpNames": ops, "TxtC": set(txt), "IdxC": set(idx)},
+                   invariants=["Emit"])
 
 
 def pipeline(ctx, cases_by=None):
@@ -36,8 +41,16 @@ def pipeline(ctx, cases_by=None):
         ctx.exhaustive = True
         obs = ctx.run_exec("body", cases, "bfs")
         ctx.tlc_trace("Body_Trace.tla", "Body_Trace.cfg", obs, "bfs")
+        # read - edit - edit - read: every sequence of append / read / removal at index 0 or 1, five (six) calls deep
+        cases = ctx.tlc_gen("Body_MC.tla", gencfg(ctx, "gen_read.cfg", READ, 5 if q else 6, idx=(0, 1)), "read")
+        obs = ctx.run_exec("body", cases, "read")
+        ctx.tlc_trace("Body_Trace.tla", "Body_Trace.cfg", obs, "read")
+        # every constructor that takes a text with an empty and a non-empty one, caller-built elements
+        cases = ctx.tlc_gen("Body_MC.tla", gencfg(ctx, "gen_txt.cfg", TEXTS, 3 if q else 4, txt=("tok", "empty"), idx=(0, 1)), "txt")
+        obs = ctx.run_exec("body", cases, "txt")
+        ctx.tlc_trace("Body_Trace.tla", "Body_Trace.cfg", obs, "txt")
         d = 12 if q else 24
-        sim = ctx.tlc_gen("Body_MC.tla", gencfg(ctx, "gen_sim.cfg", ALL, d), "sim", mode="sim", num=40 if q else 1500, depth=d + 1)
+        sim = ctx.tlc_gen("Body_MC.tla", gencfg(ctx, "gen_sim.cfg", ALL, d, txt=("tok", "empty")), "sim", mode="sim", num=40 if q else 1500, depth=d + 1)
         obs = ctx.run_exec("body", sim, "sim")
         ctx.tlc_trace("Body_Trace.tla", "Body_Trace.cfg", obs, "sim")
     else:
